@@ -93,3 +93,8 @@ PROPS["C16"] = dict(level="exploration",
            Unit("c16_pass", "harness/c16_pass.cpp", cfg="d20", max_size=120, pin=True, shards=8,
                 quick=(25, 400000), thorough=(400, 20000000))],
     assumptions=_DS_ASSUME)
+
+PROPS["C19"] = dict(level="exploration",
+    units=[Unit("c19_cancel", "harness/c19_cancel.cpp", cfg="d17", max_size=120, pin=True, shards=8,
+                quick=(30, 400000), thorough=(480, 20000000))],
+    assumptions=_DS_ASSUME)
